@@ -100,6 +100,13 @@ EXPRESSION_PATTERN = re.compile(
 )
 
 
+# The lexer matches the literals/operator keyword with word boundaries (\btrue\b, \bfalse\b,
+# \bnull\b, \bvs\b) before it tries identifiers.  A bare value, annotation name or expression
+# operand that *starts* with one of these words followed by a non-word character (true.x, null-y,
+# vs.a, A→true, true<x>) would therefore be re-lexed as a literal/operator plus a remainder.
+_RESERVED_PREFIX_PATTERN = re.compile(r"(?:^|[" + _UNICODE_OPS + r"])(?:true|false|null|vs)(?![A-Za-z0-9_])")
+
+
 def _sort_children_by_key(children: list[Any]) -> list[Any]:
     """Sort AST children by key for key_sorting option.
 
@@ -141,6 +148,11 @@ def needs_quotes(value: Any) -> bool:
     # Reserved words need quotes to avoid becoming literals or operators
     # This includes boolean/null literals and operator keywords
     if value in ("true", "false", "null", "vs"):
+        return True
+
+    # A reserved word at the start of the value or of an expression operand, followed by a
+    # non-word character, is tokenised as that literal/operator: quote to preserve the string.
+    if _RESERVED_PREFIX_PATTERN.search(value):
         return True
 
     # Issue #181: Variables ($VAR, $1:name) don't need quotes
